@@ -1,5 +1,9 @@
-import Banyan.Model.Util
+import Banyan.Model.C03
+import Banyan.Generated.C02
 open Banyan
 
-/- stub: model driver for C03 not built yet -/
-def main : IO Unit := runDriver fun _ => "bad-op"
+/-- model driver for C03: same protocol and model as C02 (hooks/banyand/internal/verifdrv/mrw/main.go) -/
+def main (args : List String) : IO Unit :=
+  let legacy := if args.contains "legacy" then true else if args.contains "fixed" then false
+                else !Generated.C02.initGuarded
+  runDriver (Store.Proto.handleWith (if legacy then C03.cfgLegacy else C03.cfg))
